@@ -3,10 +3,10 @@ package main
 // Calls: builtins, inlined closures, contract application, uncontracted havoc; maps; effects.
 
 import (
-	"os"
 	"fmt"
 	"go/token"
 	"go/types"
+	"os"
 	"sort"
 	"strings"
 
@@ -20,9 +20,9 @@ var purePkgs = map[string]bool{
 	"unicode/utf8": true, "time": true, "math/rand": true, "math/bits": true, "path/filepath": true,
 	"github.com/mgtv-tech/redis-GunYu/pkg/log": true, "sync": true, "sync/atomic": true, "context": true,
 	"runtime": true, "runtime/debug": true, "os": true, "reflect": true,
-	"github.com/mgtv-tech/redis-GunYu/pkg/metric": true,
+	"github.com/mgtv-tech/redis-GunYu/pkg/metric":    true,
 	"github.com/prometheus/client_golang/prometheus": true,
-	"go.uber.org/atomic": true,
+	"go.uber.org/atomic":                             true,
 }
 
 func calleePkgPath(c *ssa.CallCommon) string {
